@@ -9,9 +9,9 @@ THEOREMS = [
     "GmqttVerif.Fed.route_nonretained_exact",
     "GmqttVerif.Fed.route_retained_all",
     "GmqttVerif.Fed.receiver_no_reforward",
+    "GmqttVerif.Fed.received_message_published_once",
     "GmqttVerif.Fed.shared_one_in_federation_refuted",
     "GmqttVerif.Fed.shared_lost_refuted",
-    "GmqttVerif.Fed.shared_one_in_federation_partial",
     "GmqttVerif.Fed.remote_retained_clear_refuted",
     "GmqttVerif.Fed.remote_retained_set",
 ]
@@ -65,6 +65,12 @@ def gen_route(rng, shared=False):
             ops.append(f"pub {t} {1 if rng.random() < 0.15 else 0}")
     for _ in range(rng.randint(1, 4)):
         ops.append(f"pub {rng.choice(TOPICS)} {1 if rng.random() < 0.1 else 0}")
+    if rng.random() < 0.15:
+        # a Message event received from a peer, through the real EventStream loop into the Publisher of a real server value
+        # (sender = a peer without entries in the tree: its Hello is a clean start, which clears the sender's entries)
+        ops.append("peer Z")
+        ops.append(f"recvpub Z {rng.choice(TOPICS)} {rng.choice([0, 1])}")
+        ops.append(f"pub {rng.choice(TOPICS)} 0")
     return ops
 
 def mqtt_match(flt, topic):
@@ -98,7 +104,7 @@ def pred_route(ops, out, check_groups=False):
         return "implementation crashed or hung: " + (out[0] if out else "")
     peers, fed, loc = [], set(), set()
     for op, o in zip(ops, out):
-        if o in ("panic", "bad-op", "err", "wrong-event", "odd-options", "hang"):
+        if o in ("panic", "bad-op", "err", "wrong-event", "odd-options", "hang") or o.startswith("err-"):
             return f"`{op}` -> {o}"
         f = op.split()
         if f[0] == "new":
@@ -114,6 +120,9 @@ def pred_route(ops, out, check_groups=False):
             loc.add((f[1], f[2], f[3]))
         elif f[0] == "lunsub":
             loc.discard((f[1],) + split_topic(f[2]))
+        elif f[0] == "recvpub":
+            if o != "hookcalls=0 queued=0":
+                return f"`{op}`: a message received from a peer was forwarded again / re-entered OnMsgArrived: {o}"
         elif f[0] == "pub":
             m = OUT.match(o)
             if not m:
